@@ -731,6 +731,65 @@ def c_trim(case, ctx):
         check_queries(ctx, built, x, case, "trim.built_with_k", ke, ref_mean, full=(ke == r), cf=max(1.0, float(ref_eigs[0] / ref_eigs[r - 1]) / 1e5))
 
 
+# ----------------------------------------------------------------------------------------------
+# the Gram path works through its in-place products in blocks of 1000 rows: models with more than 1000 components
+
+
+def enum_block_boundary(tier):
+    cases = [{"n": 1003, "d": 1010, "centre": True, "seed": 1}, {"n": 1002, "d": 1002, "centre": False, "seed": 2}]
+    if tier == "thorough":
+        cases += [{"n": 1001, "d": 1040, "centre": False, "seed": 3}, {"n": 1040, "d": 1100, "centre": True, "seed": 4},
+                  {"n": 2003, "d": 2003, "centre": True, "seed": 5}, {"n": 1000, "d": 1200, "centre": False, "seed": 6}]
+    return cases
+
+
+def c_block_boundary(case, ctx):
+    """n <= d with more than 1000 kept components (the Gram path's in-place dot products run block-wise, block = 1000
+    rows): orthonormal components, eigenvalues = SVD reference, exact reconstruction of training samples."""
+    n, d, centre = case["n"], case["d"], case["centre"]
+    rs = np.random.RandomState(case["seed"])
+    # well-separated-enough spectrum: geometric singular values over two decades, random orthonormal factors
+    r = n - 1 if centre else n
+    s_ = np.geomspace(30.0, 0.3, r)
+    a, _ = np.linalg.qr(rs.randn(n, r + (1 if centre else 0)))
+    if centre:
+        ones = np.ones((n, 1)) / np.sqrt(n)
+        a = a - ones.dot(ones.T.dot(a))
+        a, _ = np.linalg.qr(a[:, :r])
+    b, _ = np.linalg.qr(rs.randn(d, r))
+    x = (a[:, :r] * s_[None, :]).dot(b.T)
+    if centre:
+        x = x + (np.round(rs.rand(d) * 64) / 8.0)[None, :]
+    ctx.event("n=%d d=%d centre=%s" % (n, d, centre))
+    ctx.nontrivial(True)
+    ref_mean, ref_eigs, ref_vt = rp.ref_pca(x, centre)
+    m = PCAVectorModel(x.copy(), centre=centre)
+    c = np.asarray(m.components, dtype=float)
+    l = np.asarray(m.eigenvalues, dtype=float)
+    k = c.shape[0]
+    ctx.event("components=%d" % k)
+    ctx.expect(k == r, "block.count_is_rank", "%d components for rank %d" % (k, r))
+    g = c.dot(c.T)
+    ctx.expect(float(np.abs(g - np.eye(k)).max()) <= 1e-8, "block.orthonormal",
+               lambda: "max |C C^T - I| = %.3e (first bad row %d)" % (float(np.abs(g - np.eye(k)).max()), int(np.argmax(np.abs(g - np.eye(k)).max(axis=1)))))
+    kk = min(k, r)
+    ctx.expect(bool(np.all(np.abs(l[:kk] - ref_eigs[:kk]) <= 1e-7 * ref_eigs[:kk] + 1e-12 * ref_eigs[0])), "block.eigenvalues_vs_reference",
+               lambda: describe(l[:kk], ref_eigs[:kk]))
+    # every training sample is reconstructed (all components kept)
+    rows = [0, n // 2, n - 1]
+    for i in rows:
+        rec = np.asarray(m.reconstruct(x[i])).ravel()
+        ctx.expect(float(np.abs(rec - x[i]).max()) <= 1e-7 * max(1.0, float(np.abs(x).max())), "block.training_sample_not_reconstructed",
+                   lambda: "sample %d: max error %.3e" % (i, float(np.abs(rec - x[i]).max())))
+    # the subspace of the components past the first block equals the reference's
+    if k == r and r > 1000:
+        tail = c[1000:]
+        ref_tail = ref_vt[1000:r]
+        p1, p2 = tail.T.dot(tail), ref_tail.T.dot(ref_tail)
+        ctx.expect(float(np.abs(p1 - p2).max()) <= 1e-6, "block.components_beyond_first_block_wrong_subspace",
+                   lambda: "projector difference %.3e" % float(np.abs(p1 - p2).max()))
+
+
 CLAUSES = [
     Clause(
         "identities",
@@ -759,4 +818,6 @@ CLAUSES = [
         nt_floor=0.3,
         rule="max_n_components=k vs trim_components(k) vs n_active=k;trim() vs fraction forms vs active view; non-trivial: k < rank, >= 2 components",
     ),
+    Clause("block_boundary", c_block_boundary, enumerate=enum_block_boundary,
+           rule="fixed large cases with more than 1000 components on the n <= d path (block size of the in-place products)"),
 ]
